@@ -72,7 +72,9 @@ def one(case):
     # full alphabet, a 12-character sample, or a very short one (exhausted by the item's distinct values: either an exception or an injective mapping)
     vals = VALUES if u < .6 else ("".join(rng.sample(VALUES, 12)) if u < .8 else rng.choice(["", "A", "AB", "XYZ"]))
     errs += TO.check_replace(text, cn, col, vals)
-    return errs, (text, cn, src, dst, col, vals)
+    # an item of the category with at least two different values, if there is one (for the repeated-character alphabet of the CLI runs)
+    multi = [a for k, a in enumerate(cats[cn][0]) if len({row[k] for row in cats[cn][1]}) >= 2] if cn in cats else []
+    return errs, (text, cn, src, dst, col, vals, multi[0] if multi else col)
 
 
 def bounded(tier, seed):
@@ -98,8 +100,9 @@ def bounded(tier, seed):
             "rule": "generated multi-category documents (quoted, multi-word, '?'/'.' values; loops and key-value categories) and corpus files; random category/item choices incl. absent ones and new target items; copy and replace compared cell by cell through the mmcif reader",
             "bound": f"{len(cases)} documents"}]
     ev2, viol2 = 0, []
-    for text, cn, src, dst, col, vals in cli_inputs:
-        for mode, a, b in (("copy", src, dst), ("replace", col, vals)):
+    for text, cn, src, dst, col, vals, col2 in cli_inputs:
+        # (the third run: an alphabet with a repeated character - whatever the library returns for it, the tool must write the same)
+        for mode, a, b in (("copy", src, dst), ("replace", col, vals), ("replace", col2, "XX" + VALUES[:40].replace("X", ""))):
             if mode == "copy" and src == dst:
                 continue
             if mode == "replace" and not vals:
